@@ -76,6 +76,8 @@ def cases(ctx):
     n_bases = 48 if ctx.quick else 480
     while len(bases) < n_bases:
         f = decode(R.randrange(TOTAL))
+        if len(bases) % 3 == 0:
+            f.update(fetch=1, remote=1)
         f.update(cfg_commit=1, cfg_tag=R.choice([0, 1, 1, 2]), cfg_push=R.choice([0, 1, 2]), cli_commit=R.choice([0, 1]), cli_tag=R.choice([0, 0, 1]),
                  cli_push=R.choice([0, 0, 1]), dirty=0, dry=0, pre=R.choice([0, 1]), post=R.choice([0, 1]))
         bases.append(f)
@@ -383,6 +385,13 @@ def run_case(ctx, case):
             ctx.violation("other:fault:" + cls, f"{k}-th call ({label}) made to fail: {msg} | factors={f} argv={args}",
                           case={"kind": "faults", "f": f},
                           observed={"res": res.brief(), "events": [(e["name"], e["argv"], e["exit"]) for e in evs]})
+        if failed and failed["argv"] and failed["argv"][0] in ("fetch", "pull", "tag", "tags", "log") and kind in (None, "fetch") \
+                and res.exit_code == 0:
+            vers = (res.record_value("Old Version: "), res.record_value("New Version: "))
+            if vers != (None, None) and vers != versions(f):
+                ctx.violation("other:fault:start_version_changes_when_tag_query_fails",
+                              f"{k}-th call ({label}) made to fail: update exits 0 and announces {vers}, the tags on disk say "
+                              f"{versions(f)} | factors={f} argv={args}", case={"kind": "faults", "f": f})
         if kind in ("add", "commit", "tag", "push", "pre-hook", "post-hook") and res.exit_code == 0:
             if not (kind == "add" and f["vcs"]):
                 ctx.violation("other:fault:exit_0_after_failed_step", f"{label} failed but exit 0 | factors={f}",
